@@ -302,6 +302,56 @@ Section GenericProofs.
     2:{ intros c Hc. apply in_seq in Hc. apply He. lia. }
     ring.
   Qed.
+  (* ------------------------------------------------------------- two-sided coupling *)
+  Notation residual2 := (Model.C04.residual2 R rO rI radd rmul rsub ropp).
+
+  Definition coupling_support : Prop :=
+    (forall t, In t Pp -> (w_row t < nf)%nat /\ is_boundary D (w_row t) = true
+                          /\ (w_mortar t < nm)%nat) /\
+    (forall t, In t Ps -> (w_row t < nc)%nat /\ (w_mortar t < nm)%nat).
+
+  Lemma div_flux_total_support : forall (a lam : nat -> R),
+      incidence_wf -> coupling_support ->
+      (forall f, (f < nf)%nat -> is_boundary D f = true -> a f == rO) ->
+      total nc (div_cell D (flux D Pp a lam)) == total nf (proj Pp lam).
+  Proof.
+    intros a lam Hi Hc Ha. rewrite div_telescopes by exact Hi.
+    destruct Hi as [_ Hf]. destruct Hc as [Hp _].
+    apply sumover_ext. intros f Hin. apply in_seq in Hin.
+    destruct (Hf f) as [[t [E Hs]]|[t1 [t2 [E [Hs Hz]]]]]; [lia| |].
+    - rewrite (is_boundary_single f t E). unfold Model.C04.flux.
+      rewrite (Ha f) by (try lia; apply (is_boundary_single f t E)).
+      transitivity ((colsum D f * colsum D f) * proj Pp lam f); [ring|].
+      rewrite (colsum_boundary_sq f t E Hs). ring.
+    - rewrite (is_boundary_interior f t1 t2 E). symmetry.
+      apply proj_offsupport; [|apply (is_boundary_interior f t1 t2 E)].
+      intros t Ht. apply Hp. exact Ht.
+  Qed.
+
+  (* The sum of the residuals when the interface flux entering the face fluxes (lamf) and
+     the one entering the lower-dimensional source (lams) differ: the accumulation rate plus
+     everything the faces receive minus everything the sources hand out. *)
+  Lemma deficit : forall (acc a lamf lams ext : nat -> R),
+      incidence_wf -> coupling_support ->
+      (forall f, (f < nf)%nat -> is_boundary D f = true -> a f == rO) ->
+      (forall c, (c < nc)%nat -> ext c == rO) ->
+      total nc (residual2 D Pp Ps acc a lamf lams ext)
+      == total nc acc + total nm (fun m => pcolsum Pp m * lamf m)
+         - total nm (fun m => pcolsum Ps m * lams m).
+  Proof.
+    intros acc a lamf lams ext Hi Hc Ha He.
+    unfold Model.C04.residual2, Model.C04.source, Model.C04.total.
+    rewrite sumover_sub, !sumover_add.
+    fold (total nc (div_cell D (flux D Pp a lamf))). fold (total nc (proj Ps lams)).
+    rewrite (div_flux_total_support a lamf Hi Hc Ha).
+    destruct Hc as [Hp Hs].
+    rewrite (proj_total Pp nf lamf).
+    2:{ intros t Ht. destruct (Hp t Ht) as [A [_ B]]. split; assumption. }
+    rewrite (proj_total Ps nc lams) by exact Hs.
+    rewrite (sumover_zero nat (seq 0 nc) ext).
+    2:{ intros c Hc. apply in_seq in Hc. apply He. lia. }
+    unfold Model.C04.total. ring.
+  Qed.
 End GenericProofs.
 
 (* ------------------------------------------------------------------------------------ *)
@@ -364,4 +414,83 @@ Proof.
                       (s_nc S) (s_nf S) (s_nm S) (s_div S) (s_pp S) (s_ps S)
                       acc a lam (fun _ => 0) Hi Hc Ha).
   intros; reflexivity.
+Qed.
+
+Lemma cert_support : forall S, cert_ok S = true ->
+    coupling_support Q (s_nc S) (s_nf S) (s_nm S) (s_div S) (s_pp S) (s_ps S).
+Proof.
+  intros S H. destruct (cert_sound S H) as [_ [A [B _]]]. split; assumption.
+Qed.
+
+Lemma sum_const_mult : forall (P : list (wtr Q)) (n : nat) (lam : nat -> Q),
+    (forall m, (m < n)%nat -> qpcolsum P m == 1) ->
+    qtotal n (fun m => qpcolsum P m * lam m) == qtotal n lam.
+Proof.
+  intros P n lam H. unfold qtotal, total.
+  apply (sumover_ext Q 0 Qplus Qmult Qopp Qeq Q_Setoid Q_eqe).
+  intros m Hm. apply in_seq in Hm. rewrite (H m) by lia. ring.
+Qed.
+
+(* over Q, with a passed certificate (unit column sums): the deficit is the total interface
+   flux that the sources hand out but the faces never receive *)
+Lemma certified_deficit : forall S (acc a lamf lams : nat -> Q),
+    cert_ok S = true ->
+    (forall f, (f < s_nf S)%nat -> is_boundary (s_div S) f = true -> a f == 0) ->
+    qtotal (s_nc S) (qresidual2 (s_div S) (s_pp S) (s_ps S) acc a lamf lams (fun _ => 0))
+    == qtotal (s_nc S) acc + qtotal (s_nm S) lamf - qtotal (s_nm S) lams.
+Proof.
+  intros S acc a lamf lams H Ha. destruct (cert_sound S H) as [Hi _].
+  pose proof (cert_support S H) as Hc.
+  unfold qtotal, qresidual2.
+  rewrite (deficit Q 0 1 Qplus Qmult Qminus Qopp Qeq Q_Setoid Q_eqe Qsrt
+                   (s_nc S) (s_nf S) (s_nm S) (s_div S) (s_pp S) (s_ps S)
+                   acc a lamf lams (fun _ => 0) Hi Hc Ha) by (intros; reflexivity).
+  assert (U : forall m, (m < s_nm S)%nat ->
+                        qpcolsum (s_pp S) m == 1 /\ qpcolsum (s_ps S) m == 1).
+  { intros m Hm. unfold cert_ok in H.
+    apply andb_true_iff in H. destruct H as [_ H]. rewrite forallb_forall in H.
+    assert (Hin : In m (seq 0 (s_nm S))) by (apply in_seq; lia).
+    specialize (H m Hin). apply andb_true_iff in H. destruct H as [A B].
+    apply Qeq_bool_iff in A. apply Qeq_bool_iff in B. split; assumption. }
+  fold (qtotal (s_nm S) (fun m => qpcolsum (s_pp S) m * lamf m)).
+  fold (qtotal (s_nm S) (fun m => qpcolsum (s_ps S) m * lams m)).
+  fold (qtotal (s_nc S) acc).
+  rewrite (sum_const_mult (s_pp S) (s_nm S) lamf) by (intros m Hm; apply (U m Hm)).
+  rewrite (sum_const_mult (s_ps S) (s_nm S) lams) by (intros m Hm; apply (U m Hm)).
+  reflexivity.
+Qed.
+
+Lemma certified_partial : forall S (acc a lamf lams : nat -> Q),
+    cert_ok S = true ->
+    (forall f, (f < s_nf S)%nat -> is_boundary (s_div S) f = true -> a f == 0) ->
+    qtotal (s_nm S) lamf == qtotal (s_nm S) lams ->
+    qtotal (s_nc S) (qresidual2 (s_div S) (s_pp S) (s_ps S) acc a lamf lams (fun _ => 0))
+    == qtotal (s_nc S) acc.
+Proof.
+  intros S acc a lamf lams H Ha E. rewrite (certified_deficit S acc a lamf lams H Ha), E. ring.
+Qed.
+
+Definition witness_S : structure :=
+  {| s_nc := 4%nat; s_nf := 5%nat; s_nm := 2%nat;
+     s_div := [(0%nat, 0%nat, (-1)%Z); (0%nat, 1%nat, 1%Z); (1%nat, 1%nat, (-1)%Z);
+               (1%nat, 2%nat, 1%Z); (2%nat, 3%nat, (-1)%Z); (2%nat, 4%nat, 1%Z)];
+     s_pp := [(2%nat, 0%nat, 1); (3%nat, 1%nat, 1)];
+     s_ps := [(3%nat, 0%nat, 1); (3%nat, 1%nat, 1)] |}.
+
+(* the faithful model of a diffusive law that leaves its interface flux out of the face
+   fluxes does NOT conserve: three 1-D cells and a 0-d fracture cell, interface fluxes
+   (7, -2) handed to the fracture cell but never taken from the neighbouring cells *)
+Lemma adflux_refuted :
+  exists (S : structure) (acc a lamf lams : nat -> Q),
+    cert_ok S = true /\
+    (forall f, (f < s_nf S)%nat -> is_boundary (s_div S) f = true -> a f == 0) /\
+    ~ qtotal (s_nc S) (qresidual2 (s_div S) (s_pp S) (s_ps S) acc a lamf lams (fun _ => 0))
+      == qtotal (s_nc S) acc.
+Proof.
+  exists witness_S, (vec [1; 2; 3; 4]), (vec [0; 5; 0; 0; 0]), (fun _ => 0), (vec [7; -2]).
+  split; [vm_compute; reflexivity|]. split.
+  - intros f Hf Hb. cbn in Hf.
+    destruct f as [|[|[|[|[|f]]]]]; try (vm_compute; reflexivity);
+      try (vm_compute in Hb; discriminate); lia.
+  - intro H. vm_compute in H. discriminate.
 Qed.
